@@ -337,11 +337,28 @@ struct OpResult {
     void release() { for (auto p : kept) free_gp(p); kept.clear(); }
 };
 
+// The public entry points of clipper_tools.hpp that reach boolean(): the function itself and its inline
+// forwarding overloads.  Every applicable one is called on the reduced sub-space stated in the bounds
+// and judged by the same oracle (a forwarder that swaps or drops an operand is a wrong result).
+enum { E_AA = 0, E_PA = 1, E_AP = 2, E_PP = 3, E_MERGE = 4 };
+static const char* ENTRY_NAME[5] = {"boolean(array,array)", "boolean(polygon,array)", "boolean(array,polygon)", "boolean(polygon,polygon)", "merge(array)"};
+static const char* ENTRY_ARG[5] = {"aa", "pa", "ap", "pp", "merge"};
+static int ENTRY = E_AA;  // entry point used by run_op (set by check_pair / check_merge)
+static bool entry_applies(int e, const Operand& A, const Operand& B) {
+    return e == E_AA || (e == E_PA && A.gp.size() == 1) || (e == E_AP && B.gp.size() == 1) || (e == E_PP && A.gp.size() == 1 && B.gp.size() == 1);
+}
+
 static void run_op(const Operand& A, const Operand& B, Operation op, int64_t S, bool keep, OpResult& r) {
     Array<Polygon*> pa = {A.gp.size(), A.gp.size(), (Polygon**)A.gp.data()};
     Array<Polygon*> pb = {B.gp.size(), B.gp.size(), (Polygon**)B.gp.data()};
     Array<Polygon*> res = {};
-    r.ec = boolean(pa, pb, op, (double)S, res);
+    switch (ENTRY) {
+        case E_PA: r.ec = boolean(*A.gp[0], pb, op, (double)S, res); break;
+        case E_AP: r.ec = boolean(pa, *B.gp[0], op, (double)S, res); break;
+        case E_PP: r.ec = boolean(*A.gp[0], *B.gp[0], op, (double)S, res); break;
+        case E_MERGE: r.ec = merge(pa, (double)S, res); break;  // documented as boolean(pa, {}, Or)
+        default: r.ec = boolean(pa, pb, op, (double)S, res);
+    }
     r.fine.resize(res.count);
     bool pow2 = (S & (S - 1)) == 0;
     for (uint64_t i = 0; i < res.count; i++) {
@@ -419,17 +436,17 @@ static std::vector<Poly> parse_polys(const std::string& s) {
     return out;
 }
 static std::string pair_replay(const Ctx& cx, const Operand& A, const Operand& B) {
-    return fmt("sub=%s S=%lld g=%d r=%d aa=%s ab=%s", cx.sub.c_str(), (long long)cx.S, cx.grid->g, cx.grid->r, A.area_mode, B.area_mode) + " A=" + polys_arg(A.fine) + " B=" + polys_arg(B.fine);
+    return fmt("sub=%s S=%lld g=%d r=%d aa=%s ab=%s entry=%s", cx.sub.c_str(), (long long)cx.S, cx.grid->g, cx.grid->r, A.area_mode, B.area_mode, ENTRY_ARG[ENTRY]) + " A=" + polys_arg(A.fine) + " B=" + polys_arg(B.fine);
 }
 static void report(const Ctx& cx, const char* cls, const Operand& A, const Operand& B, int op, const PairInfo& pi,
                    const OpResult* r, const std::string& detail, JFields extra = {}) {
     JFields tags = {{"op", jstr(op >= 0 ? OPN[op] : "all")}, {"scaling", jint(cx.S)}, {"regime", jstr(pi.exact ? "exact" : "rounded")},
                     {"relation", jstr(pi.relation())}, {"polys_a", jint((int64_t)A.fine.size())}, {"polys_b", jint((int64_t)B.fine.size())},
-                    {"keyholed_input", jbool(A.keyholed || B.keyholed)}};
+                    {"keyholed_input", jbool(A.keyholed || B.keyholed)}, {"entry", jstr(ENTRY_NAME[ENTRY])}};
     for (auto& e : extra) tags.push_back(e);
     if (SILENT) return;
     T.m[fmt("violations_by_class_op:%s:%s:%s", cls, op >= 0 ? OPN[op] : "identity", pi.exact ? "exact" : "rounded")]++;
-    JFields c = {{"scaling", jint(cx.S)}, {"operation", jstr(op >= 0 ? OPN[op] : "or,and,not,xor")}, {"A", polys_json(A.fine, cx.S)}, {"B", polys_json(B.fine, cx.S)}};
+    JFields c = {{"scaling", jint(cx.S)}, {"operation", jstr(op >= 0 ? OPN[op] : "or,and,not,xor")}, {"entry_point", jstr(ENTRY_NAME[ENTRY])}, {"A", polys_json(A.fine, cx.S)}, {"B", polys_json(B.fine, cx.S)}};
     if (r) c.push_back({"result", polys_json(r->fine, cx.S)});
     R->violation(cx.sub, cls, tags, jobj(c), detail, pair_replay(cx, A, B));
     if (VERBOSE) fprintf(stderr, "  ** VIOLATION %s: %s\n", cls, detail.c_str());
@@ -438,7 +455,9 @@ static void report(const Ctx& cx, const char* cls, const Operand& A, const Opera
 // ------------------------------------------------------------------------------- the oracle
 // Returns true iff no violation was found for this pair.  keep_op >= 0: that operation's result
 // (gdstk polygons + fine copy) is handed to the caller in *kept.
-static bool check_pair(const Ctx& cx, const Operand& A, const Operand& B, int keep_op = -1, OpResult* kept = NULL, bool emit_sample = false) {
+static bool check_pair(const Ctx& cx, const Operand& A, const Operand& B, int keep_op = -1, OpResult* kept = NULL, bool emit_sample = false, int entry = E_AA) {
+    struct EntryScope { int saved; EntryScope(int e) : saved(ENTRY) { ENTRY = e; } ~EntryScope() { ENTRY = saved; } } entry_scope(entry);
+    if (entry != E_AA) T.m[std::string("cases_via_") + ENTRY_ARG[entry]] += 4;
     PairInfo pi = analyse(A, B);
     bool nontriv = pi.nontrivial();
     const Grid& G = *cx.grid;
@@ -470,7 +489,7 @@ static bool check_pair(const Ctx& cx, const Operand& A, const Operand& B, int ke
         if (r.keyholed) T.keyholed_results++;
         if (r.fine.size() > 1) T.multi_polygon_results++;
         if (r.fine.empty()) T.empty_results++;
-        if (VERBOSE) fprintf(stderr, "  %s -> error_code=%d, %zu polygon(s) %s  2*area=%s/S^2\n", OPN[o], (int)r.ec, r.fine.size(), polys_json(r.fine, cx.S).c_str(), i128s(r.area2).c_str());
+        if (VERBOSE) fprintf(stderr, "  [%s] %s -> error_code=%d, %zu polygon(s) %s  2*area=%s/S^2\n", ENTRY_NAME[ENTRY], OPN[o], (int)r.ec, r.fine.size(), polys_json(r.fine, cx.S).c_str(), i128s(r.area2).c_str());
         Mask expect = o == 0 ? (A.cover | B.cover) : o == 1 ? (A.cover & B.cover) : o == 2 ? (A.cover & ~B.cover) : (A.cover ^ B.cover);
         // coverage of the result at the valid samples
         U.resize(r.fine.size());
@@ -534,9 +553,9 @@ static bool check_pair(const Ctx& cx, const Operand& A, const Operand& B, int ke
         if (opfail[o]) ok = false;
         {
             uint32_t key = (uint32_t)o | (uint32_t)std::min<size_t>(r.fine.size(), 15) << 2 | (uint32_t)std::min(r.nverts, 255) << 6 | (uint32_t)r.keyholed << 14 | (uint32_t)pi.exact << 15 |
-                           (uint32_t)(pi.cross ? 0 : pi.collinear ? 1 : pi.touch ? 2 : 3) << 16 | (uint32_t)opfail[o] << 18;
+                           (uint32_t)(pi.cross ? 0 : pi.collinear ? 1 : pi.touch ? 2 : 3) << 16 | (uint32_t)opfail[o] << 18 | (uint32_t)ENTRY << 19;
             if (outcome_seen.insert(key).second)
-                R->outcome(cx.sub, fmt("%s np=%d nv=%d keyholed=%d %s %s fail=%d", OPN[o], (int)r.fine.size(), r.nverts, (int)r.keyholed, pi.exact ? "exact" : "rounded", pi.relation(), (int)opfail[o]));
+                R->outcome(cx.sub, fmt("%s %s np=%d nv=%d keyholed=%d %s %s fail=%d", ENTRY_ARG[ENTRY], OPN[o], (int)r.fine.size(), r.nverts, (int)r.keyholed, pi.exact ? "exact" : "rounded", pi.relation(), (int)opfail[o]));
         }
         if (emit_sample) sample_res.push_back(jobj({{"op", jstr(OPN[o])}, {"result", polys_json(r.fine, cx.S)}}));
     }
@@ -570,15 +589,16 @@ static bool check_pair(const Ctx& cx, const Operand& A, const Operand& B, int ke
 }
 
 // area of a multi-polygon lattice operand: from boolean(G, {}, Or), itself checked by sampling
-static bool check_merge(const Ctx& cx, Operand& Gp) {
+static bool check_merge_via(const Ctx& cx, Operand& Gp, int entry) {
     static const Operand EMPTY;
+    struct EntryScope { int saved; EntryScope(int e) : saved(ENTRY) { ENTRY = e; } ~EntryScope() { ENTRY = saved; } } entry_scope(entry);
     PairInfo pi = analyse(Gp, EMPTY);
     const Grid& G = *cx.grid;
     Mask valid = pi.exact ? (G.all & ~Gp.onb) : (G.all & ~Gp.near);
     OpResult r;
     run_op(Gp, EMPTY, Operation::Or, cx.S, false, r);
     T.cases++;
-    T.m["merge_cases"]++;
+    T.m[entry == E_MERGE ? "cases_via_merge" : "merge_cases"]++;
     bool ok = true;
     if (r.ec != ErrorCode::NoError) { ok = false; report(cx, "error_code", Gp, EMPTY, 0, pi, &r, fmt("boolean() returned ErrorCode %d", (int)r.ec), {{"error_code", jint((int)r.ec)}}); }
     if (r.offgrid) { ok = false; report(cx, "offgrid", Gp, EMPTY, 0, pi, &r, r.offgrid_what, {{"error_code", jint((int)r.ec)}}); }
@@ -606,8 +626,15 @@ static bool check_merge(const Ctx& cx, Operand& Gp) {
     Gp.area_mode = "merge";
     Gp.area2 = r.area2;
     Gp.area_slack2 = pi.exact ? (i128)0 : (i128)2 * (Gp.nverts + r.nverts + pi.ncross_all) * cx.extent_fine;
-    if (VERBOSE) fprintf(stderr, "  merge of the group: %zu polygon(s), 2*area=%s slack=%s ok=%d\n", r.fine.size(), i128s(Gp.area2).c_str(), i128s(Gp.area_slack2).c_str(), (int)ok);
+    if (VERBOSE) fprintf(stderr, "  [%s] union of the group: %zu polygon(s), 2*area=%s slack=%s ok=%d\n", ENTRY_NAME[ENTRY], r.fine.size(), i128s(Gp.area2).c_str(), i128s(Gp.area_slack2).c_str(), (int)ok);
     return ok;
+}
+// both ways of merging a group: the inline wrapper merge(G) and boolean(G, {}, Or); |G| is taken from the latter
+static bool check_merge(const Ctx& cx, Operand& Gp) {
+    bool ok1 = check_merge_via(cx, Gp, E_MERGE);
+    bool ok2 = check_merge_via(cx, Gp, E_AA);
+    Gp.area_ok = ok1 && ok2;
+    return ok1 && ok2;
 }
 
 // ------------------------------------------------------------------------------- operand families
@@ -675,7 +702,7 @@ static bool replay_idx_here(const std::string& sub, int64_t& idx) {
 }
 
 // every A-operand x every B-operand x 4 operations at scaling S
-static void product_bound(const std::string& sub, const std::string& desc, Side& SA, Side& SB, const Grid& G, int64_t S, int64_t chunkB = 2000) {
+static void product_bound(const std::string& sub, const std::string& desc, Side& SA, Side& SB, const Grid& G, int64_t S, int64_t chunkB = 2000, bool overloads = false) {
     int64_t ridx;
     bool rep = replay_idx_here(sub, ridx);
     if (rep && ridx < 0) return;
@@ -697,6 +724,10 @@ static void product_bound(const std::string& sub, const std::string& desc, Side&
             bool want = idx == n / 3 && !sampled && analyse(A, B).cross;
             if (want) sampled = true;
             check_pair(cx, A, B, -1, NULL, want);
+            // the same pair through every inline forwarding overload that applies to it
+            if (overloads)
+                for (int e = E_PA; e <= E_PP; e++)
+                    if (entry_applies(e, A, B)) check_pair(cx, A, B, -1, NULL, false, e);
         }
         T.flush();
     };
@@ -704,7 +735,13 @@ static void product_bound(const std::string& sub, const std::string& desc, Side&
     double t0 = now();
     bool ok = parallel_for(*R, n, body, [&](int64_t idx) { return jobj({{"bound", jstr(sub)}, {"A_index", jint(idx / nch)}, {"B_chunk", jint(idx % nch)}, {"note", jstr("crash/hang while executing one of the pairs of this chunk")}}); },
                            [&](int64_t idx) { return fmt("sub=%s idx=%lld", sub.c_str(), (long long)idx); }, PFOptions{300, sub, true});
-    R->bound(sub, desc + fmt("  [%lld x %lld operand pairs x 4 operations, scaling %lld, %d sample points (r=%d)]", (long long)nA, (long long)nB, (long long)S, G.count(), G.r), ok, ok ? nA * nB * 4 : 0,
+    int nentries = 1;
+    if (overloads) {
+        bool a1 = SA.items[0].j < 0, b1 = SB.items[0].j < 0;  // a side is homogeneous: all single shapes or all groups
+        nentries = 1 + (a1 ? 1 : 0) + (b1 ? 1 : 0) + (a1 && b1 ? 1 : 0);
+    }
+    R->bound(sub, desc + fmt("  [%lld x %lld operand pairs x 4 operations x %d entry point(s)%s, scaling %lld, %d sample points (r=%d)]", (long long)nA, (long long)nB, nentries,
+                             overloads ? " (boolean(array,array) and every inline overload taking a single Polygon that applies)" : "", (long long)S, G.count(), G.r), ok, ok ? nA * nB * 4 * nentries : 0,
              {{"wall_s", jnum(now() - t0)}});
 }
 
@@ -784,6 +821,58 @@ static void chain_bound(const std::string& sub, const std::string& desc, const s
              ok ? nN * 4 * (mode == 2 ? 2 : 1) + nN * nD * orders * 4 : 0, {{"wall_s", jnum(now() - t0)}});
 }
 
+// offset(const Polygon&, ...) is an inline wrapper that forwards to offset(array, ...); its geometry belongs
+// to C13, here only the forwarding is judged: for every shape, distance, join, tolerance and union flag the
+// wrapper must return exactly (error code, polygon count, vertex lists bit for bit) what the array function
+// returns for the one-element array.
+static void offset_overload_bound(const std::string& sub, ShapeSet& SS, int64_t S) {
+    const std::string desc = "inline overload offset(polygon,...) against offset(array{polygon},...): every shape x distance {-0.25, 0.125, 0.5} x join {Miter, Bevel, Round} x tolerance {2, 9} x use_union {0,1}";
+    int64_t ridx;
+    bool rep = replay_idx_here(sub, ridx);
+    if (rep && ridx < 0) return;
+    if (!rep && skip_bound(sub, desc)) return;
+    const double dist[3] = {-0.25, 0.125, 0.5}, tol[2] = {2, 9};
+    const OffsetJoin joins[3] = {OffsetJoin::Miter, OffsetJoin::Bevel, OffsetJoin::Round};
+    int64_t n = (int64_t)SS.size();
+    auto body = [&](int64_t i) {
+        Polygon* p = SS.gp[i];
+        Array<Polygon*> one = {1, 1, &p};
+        for (int d = 0; d < 3; d++) for (int j = 0; j < 3; j++) for (int t = 0; t < 2; t++) for (int u = 0; u < 2; u++) {
+            Array<Polygon*> r1 = {}, r2 = {};
+            ErrorCode e1 = offset(*p, dist[d], joins[j], tol[t], (double)S, u != 0, r1);
+            ErrorCode e2 = offset(one, dist[d], joins[j], tol[t], (double)S, u != 0, r2);
+            bool same = e1 == e2 && r1.count == r2.count;
+            for (uint64_t k = 0; same && k < r1.count; k++) {
+                same = r1[k]->point_array.count == r2[k]->point_array.count;
+                for (uint64_t v = 0; same && v < r1[k]->point_array.count; v++)
+                    same = r1[k]->point_array[v].x == r2[k]->point_array[v].x && r1[k]->point_array[v].y == r2[k]->point_array[v].y;
+            }
+            T.cases++;
+            T.nontrivial++;
+            T.m["cases_via_offset_polygon"]++;
+            if (r1.count > 0) T.m["offset_overload_nonempty_results"]++;
+            if (!same) {
+                T.m["violations_by_class_op:overload_mismatch:offset:-"]++;
+                std::vector<const Poly*> pp = {&SS.lat[i]};
+                R->violation(sub, "overload_mismatch", {{"function", jstr("offset")}, {"entry", jstr("offset(polygon)")}, {"join", jint(j)}, {"use_union", jint(u)}},
+                             jobj({{"polygon", polys_json(pp, 1)}, {"distance", jnum(dist[d])}, {"join", jstr(j == 0 ? "miter" : j == 1 ? "bevel" : "round")}, {"tolerance", jnum(tol[t])}, {"scaling", jint(S)}, {"use_union", jbool(u != 0)}}),
+                             fmt("offset(polygon, ...) returned error %d and %llu polygon(s), offset(array{polygon}, ...) error %d and %llu polygon(s), or their vertices differ", (int)e1, (unsigned long long)r1.count, (int)e2, (unsigned long long)r2.count),
+                             fmt("sub=%s idx=%lld", sub.c_str(), (long long)i));
+            }
+            for (uint64_t k = 0; k < r1.count; k++) free_gp(r1[k]);
+            for (uint64_t k = 0; k < r2.count; k++) free_gp(r2[k]);
+            r1.clear();
+            r2.clear();
+        }
+        T.flush();
+    };
+    if (rep) { body(ridx); return; }
+    double t0 = now();
+    bool ok = parallel_for(*R, n, body, [&](int64_t i) { return jobj({{"bound", jstr(sub)}, {"shape_index", jint(i)}}); }, [&](int64_t i) { return fmt("sub=%s idx=%lld", sub.c_str(), (long long)i); }, PFOptions{60, sub, true});
+    R->sample(sub, jobj({{"polygon", polys_json(std::vector<const Poly*>{&SS.lat[n / 2]}, 1)}, {"scaling", jint(S)}, {"compared", jstr("offset(polygon,...) vs offset(array{polygon},...), 36 parameter combinations")}}));
+    R->bound(sub, desc + fmt("  [%lld shapes x 36 parameter combinations, scaling %lld]", (long long)n, (long long)S), ok, ok ? n * 36 : 0, {{"wall_s", jnum(now() - t0)}});
+}
+
 // ------------------------------------------------------------------------------- nested pairs (exact)
 static bool boundaries_touch(const Poly& a, const Poly& b) {
     for (size_t i = 0; i < a.size(); i++)
@@ -813,7 +902,9 @@ static void replay_pair() {
     PairInfo pi = analyse(A, B);
     fprintf(stderr, "  regime=%s relation=%s crossings=%d, samples outside the guard band: %d of %d\n", pi.exact ? "exact" : "rounded", pi.relation(), pi.ncross_all,
             (int)(pi.exact ? G.all : (G.all & ~(A.near | B.near))).count(), G.count());
-    bool ok = check_pair(cx, A, B);
+    int entry = E_AA;
+    for (int e = 0; e < 4; e++) if (R->rarg("entry") == ENTRY_ARG[e] && entry_applies(e, A, B)) entry = e;
+    bool ok = check_pair(cx, A, B, -1, NULL, false, entry);
     fprintf(stderr, "  => %s\n", ok ? "no violation" : "VIOLATION");
     T.flush();
     for (auto p : ga) free_gp(p);
@@ -883,12 +974,13 @@ int main(int argc, char** argv) {
     const char* D_CHAIN = "C = A not B for every nested pair (A: g=4 n<=4 start-fixed, B on the inner 2x2 lattice, strictly inside A), all four operations on (A,B) checked";
     if (!TH) {
         // ======================= quick tier
-        product_bound("q.single.g3n4.s1000", D_SINGLE, g3all, g3all, G3, S1000);
-        product_bound("q.single.g3n4_x_tri.s1", "g=3 start-fixed: every n<=4 shape x every triangle", g3all, g3tri, G3, S1);
-        product_bound("q.single.g3n4_x_tri.s2p20", "g=3 start-fixed: every n<=4 shape x every triangle", g3all, g3tri, G3, S20);
-        product_bound("q.single.g3n4_x_tri.s2p40", "g=3 start-fixed: every n<=4 shape x every triangle", g3all, g3tri, G3, S40);
-        product_bound("q.group_a.g3tri.s1000", "A = every two-shape group {ccw T_i, ccw T_j} and {ccw T_i, cw T_j}, i<=j, of g=3 start-fixed triangles, B = every counter-clockwise g=3 triangle", g3grpH, g3triCCW, G3, S1000);
-        product_bound("q.group_b.g3tri.s1000", "A = every clockwise g=3 start-fixed triangle, B = every two-shape group {ccw T_i, ccw T_j} and {ccw T_i, cw T_j}, i<=j", g3triCW, g3grpH, G3, S1000, 3000);
+        product_bound("q.single.g3n4.s1000", D_SINGLE, g3all, g3all, G3, S1000, 2000, true);
+        product_bound("q.single.g3n4_x_tri.s1", "g=3 start-fixed: every n<=4 shape x every triangle", g3all, g3tri, G3, S1, 2000, true);
+        product_bound("q.single.g3n4_x_tri.s2p20", "g=3 start-fixed: every n<=4 shape x every triangle", g3all, g3tri, G3, S20, 2000, true);
+        product_bound("q.single.g3n4_x_tri.s2p40", "g=3 start-fixed: every n<=4 shape x every triangle", g3all, g3tri, G3, S40, 2000, true);
+        product_bound("q.group_a.g3tri.s1000", "A = every two-shape group {ccw T_i, ccw T_j} and {ccw T_i, cw T_j}, i<=j, of g=3 start-fixed triangles, B = every counter-clockwise g=3 triangle", g3grpH, g3triCCW, G3, S1000, 2000, true);
+        product_bound("q.group_b.g3tri.s1000", "A = every clockwise g=3 start-fixed triangle, B = every two-shape group {ccw T_i, ccw T_j} and {ccw T_i, cw T_j}, i<=j", g3triCW, g3grpH, G3, S1000, 3000, true);
+        offset_overload_bound("q.overload.offset.g3n4.s1000", g3sf, S1000);
         chain_bound("q.chain.g4.s1000", std::string(D_CHAIN) + "; then C op D for every counter-clockwise g=4 start-fixed triangle D", nest4, 0, g4sf, in4, &g4triCCW, 1, G4, S1000, 1, 2000);
         chain_bound("q.chain.g4.first_step.s1", D_CHAIN, nest4, 0, g4sf, in4, NULL, 1, G4f, S1, 32, 1);
         chain_bound("q.chain.g4.first_step.s2p40", D_CHAIN, nest4, 0, g4sf, in4, NULL, 1, G4f, S40, 32, 1);
@@ -909,10 +1001,12 @@ int main(int argc, char** argv) {
         Side g4af_tri = Side::singles(g4af, 0, nT4a), g4af_all = Side::singles(g4af);
         Side g3grpO = Side::groups(g3sf, 0, nT3, true);
 
-        product_bound("t.single.g3n4.s1000", D_SINGLE, g3all, g3all, G3, S1000);
-        product_bound("t.single.g3n4.s1", D_SINGLE, g3all, g3all, G3, S1);
-        product_bound("t.single.g3n4.s2p20", D_SINGLE, g3all, g3all, G3, S20);
-        product_bound("t.single.g3n4.s2p40", D_SINGLE, g3all, g3all, G3, S40);
+        product_bound("t.single.g3n4.s1000", D_SINGLE, g3all, g3all, G3, S1000, 2000, true);
+        offset_overload_bound("t.overload.offset.g3n4.s1000", g3sf, S1000);
+        offset_overload_bound("t.overload.offset.g4n4.s2p20", g4sf, S20);
+        product_bound("t.single.g3n4.s1", D_SINGLE, g3all, g3all, G3, S1, 2000, true);
+        product_bound("t.single.g3n4.s2p20", D_SINGLE, g3all, g3all, G3, S20, 2000, true);
+        product_bound("t.single.g3n4.s2p40", D_SINGLE, g3all, g3all, G3, S40, 2000, true);
         // g=5 nested pairs / two holes
         ShapeSet g5sf, in5;
         v.clear();
@@ -939,8 +1033,8 @@ int main(int argc, char** argv) {
         run.note(fmt("g=5: %d shapes n<=4 start-fixed, %d inner shapes (%d triangles), nested pairs %d, (A,{B1,B2}) triples %d, depth-2 items %d", (int)g5sf.size(), (int)in5.size(), nTin, (int)nest5.size(), (int)trip5.size(), (int)big5.size()));
         Side in5triCCW = Side::singles(in5, 0, nCin);
         chain_bound("t.nested.g5.s1000", "A op B for every nested pair (A: g=5 n<=4 start-fixed, B: n<=4 on the inner 3x3 lattice, strictly inside A)", nest5, 0, g5sf, in5, NULL, 1, G5, S1000, 256, 1);
-        product_bound("t.group_a.g3tri.s1000", "A = every ordered two-shape group (T_i,T_j) of g=3 start-fixed triangles, B = every single g=3 n<=4 shape", g3grpO, g3all, G3, S1000);
-        product_bound("t.group_b.g3tri.s1000", "A = every single g=3 n<=4 shape, B = every ordered two-shape group of g=3 start-fixed triangles", g3all, g3grpO, G3, S1000, 4000);
+        product_bound("t.group_a.g3tri.s1000", "A = every ordered two-shape group (T_i,T_j) of g=3 start-fixed triangles, B = every single g=3 n<=4 shape", g3grpO, g3all, G3, S1000, 2000, true);
+        product_bound("t.group_b.g3tri.s1000", "A = every single g=3 n<=4 shape, B = every ordered two-shape group of g=3 start-fixed triangles", g3all, g3grpO, G3, S1000, 4000, true);
         product_bound("t.single.g4.tri_x_n4.s1000", "g=4: start-fixed triangles x (triangles + quadrilaterals)", g4tri, g4all, G4, S1000);
         product_bound("t.single.g4.n4_x_tri.s1000", "g=4: start-fixed (triangles + quadrilaterals) x triangles", g4all, g4tri, G4, S1000);
         chain_bound("t.chain.g4.s1000", std::string(D_CHAIN) + "; then C op D and D op C for every g=4 n<=4 start-fixed D", nest4, 0, g4sf, in4, &g4all, 2, G4f, S1000, 1, 2000);
